@@ -182,7 +182,9 @@ int main(void)
         else if (!strcmp(c, "piter")) { rc = cg_piter_write(fn, A(1), A(2), W[3]); printf("c %d\n", rc); }
         /* ---------------------------------------------------------------- build: node-context writers */
         else if (!strcmp(c, "user")) { rc = cg_user_data_write(W[1]); printf("c %d\n", rc); }
-        else if (!strcmp(c, "array")) { int v[2] = {1, 2}; cgsize_t dim = 2; rc = cg_array_write(W[1], CGNS_ENUMV(Integer), 1, &dim, v); printf("c %d\n", rc); }
+        else if (!strcmp(c, "array")) { int v[2] = {1, 2}; cgsize_t dim = 1; rc = cg_array_write(W[1], CGNS_ENUMV(Integer), 1, &dim, v); printf("c %d\n", rc); }
+        else if (!strcmp(c, "timevalues")) { cgsize_t dim = 3; rc = cg_array_write("TimeValues", CGNS_ENUMV(RealDouble), 1, &dim, d27); printf("c %d\n", rc); }
+        else if (!strcmp(c, "origin")) { cgsize_t dims[2] = {3, 2}; rc = cg_array_write("OriginLocation", CGNS_ENUMV(RealDouble), 2, dims, d27); printf("c %d\n", rc); }
         else if (!strcmp(c, "integral")) { rc = cg_integral_write(W[1]); printf("c %d\n", rc); }
         else if (!strcmp(c, "state")) { rc = cg_state_write("refstate"); printf("c %d\n", rc); }
         else if (!strcmp(c, "converg")) { rc = cg_convergence_write(5, "norms"); printf("c %d\n", rc); }
@@ -252,6 +254,7 @@ int main(void)
             printf("k %d %d %d %d %d %d\n", r1, r1 ? -1 : a, r2, r2 ? -1 : b, r3, r3 ? -1 : d);
         }
         else printf("badline %s\n", c);
+        if (rc > 0 && getenv("C11_DEBUG")) fprintf(stderr, "[%s] -> %d: %s\n", c, rc, cg_get_error());
         fflush(stdout);
     }
     return 0;
